@@ -325,30 +325,8 @@ def rule_K3_R1(ctx):
     same_store(ctx, "R1", "ConditionalSMCSampler._init_swarm: iteration advanced by one", f, ex, sp, "iteration")
 
 
-def rule_R2(ctx):
-    prog = ctx.prog
-    ctx.rule("R2", "the retained path is weighted like a free particle (same proposal density, same create_particle), one edit per data point", 5)
-    f = prog.fn("ConditionalSMCSampler._get_constrained_path")
-    ex = extract(prog, f, opaque_self_methods=OPAQUE)
-    cps = ex.calls(".create_particle")
-    ok = len(cps) >= 2
-    why = "no create_particle call found in the retained-path loop"
-    for ev in cps:
-        log_q, parent, holder = ev.args if len(ev.args) == 3 else (None, None, None)
-        a = log_q.as_atom() if isinstance(log_q, Poly) else None
-        good = a is not None and a[0] == "mcall" and a[1] == "log_p" and a[3] == (vkey(holder),)
-        if good:
-            recv = a[2]
-            # receiver must be get_proposal_distribution(data_point, parent, …) on the same kernel
-            from ..termflow import key_atom
-            rp = key_atom(recv)
-            good = rp is not None and rp[0] == "mcall" and rp[1] == "get_proposal_distribution" and len(rp[3]) >= 2 and rp[3][1] == vkey(parent) and rp[2] == vkey(ev.recv)
-        if not good:
-            ok = False
-            why = "log_q handed to create_particle is %s, not proposal.log_p(<the same tree>) of get_proposal_distribution(<data point>, <the same parent>)" % show(log_q)
-    ctx.check(ok, "R2", "_get_constrained_path: log_q = get_proposal_distribution(dp, parent, …).log_p(tree) feeds create_particle(log_q, parent, tree)", f.where(), why, construct=f.qualname, stmt="create_particle(log_q, parent, tree)")
-    # the three edits, as a specification of the tree built for each data point
-    spp = spec(prog, """
+# the reference retained path (also the premise of C14.K5: the tree attached for a parent is the parent's own)
+RETAINED_PATH_SPEC = """
 def s(self, tree):
     path = [None]
     labels = tree.labels
@@ -372,7 +350,33 @@ def s(self, tree):
         path.append(self.kernel.create_particle(dist.log_p(holder), parent, holder))
         parent_tree = new_tree
     return path
-""", f, opaque_self_methods=OPAQUE, copy_is_identity=False)
+"""
+
+
+def rule_R2(ctx):
+    prog = ctx.prog
+    ctx.rule("R2", "the retained path is weighted like a free particle (same proposal density, same create_particle), one edit per data point", 5)
+    f = prog.fn("ConditionalSMCSampler._get_constrained_path")
+    ex = extract(prog, f, opaque_self_methods=OPAQUE)
+    cps = ex.calls(".create_particle")
+    ok = len(cps) >= 2
+    why = "no create_particle call found in the retained-path loop"
+    for ev in cps:
+        log_q, parent, holder = ev.args if len(ev.args) == 3 else (None, None, None)
+        a = log_q.as_atom() if isinstance(log_q, Poly) else None
+        good = a is not None and a[0] == "mcall" and a[1] == "log_p" and a[3] == (vkey(holder),)
+        if good:
+            recv = a[2]
+            # receiver must be get_proposal_distribution(data_point, parent, …) on the same kernel
+            from ..termflow import key_atom
+            rp = key_atom(recv)
+            good = rp is not None and rp[0] == "mcall" and rp[1] == "get_proposal_distribution" and len(rp[3]) >= 2 and rp[3][1] == vkey(parent) and rp[2] == vkey(ev.recv)
+        if not good:
+            ok = False
+            why = "log_q handed to create_particle is %s, not proposal.log_p(<the same tree>) of get_proposal_distribution(<data point>, <the same parent>)" % show(log_q)
+    ctx.check(ok, "R2", "_get_constrained_path: log_q = get_proposal_distribution(dp, parent, …).log_p(tree) feeds create_particle(log_q, parent, tree)", f.where(), why, construct=f.qualname, stmt="create_particle(log_q, parent, tree)")
+    # the three edits, as a specification of the tree built for each data point
+    spp = spec(prog, RETAINED_PATH_SPEC, f, opaque_self_methods=OPAQUE, copy_is_identity=False)
     exq = extract(prog, f, opaque_self_methods=OPAQUE, copy_is_identity=False)
     same_events(ctx, "R2", "_get_constrained_path: the tree wrapped for each data point is the previous one plus exactly that point's edit (outlier / mapped clone / new clone over the mapped children)", f, exq.calls("new:TreeHolder"), spp.calls("new:TreeHolder"), "TreeHolder(new_tree, …) per data point")
     # sibling: Kernel.propose_particle
@@ -386,11 +390,10 @@ def s(self, tree):
     ex2 = extract(prog, g, opaque_self_methods={"create_particle", "get_proposal_distribution"})
     same(ctx, "R2", "Kernel.propose_particle: sample, log_p of the sample, create_particle", g, ex2.result, sp.result, "returned particle")
     # the loop ranges over self.data_points in order, exactly one edit per point in each arm
-    loops = [n for n in ast.walk(f.node) if isinstance(n, ast.For)]
-    main = [l for l in loops if u(l.iter) == "self.data_points"]
-    ok = len(main) == 1
-    ctx.check(ok, "R2", "_get_constrained_path iterates self.data_points in order", f.where(), "the retained path is not built by one pass over self.data_points", construct=f.qualname, stmt="for data_point in self.data_points")
-    if ok:
+    # (that the pass ranges over self.data_points, in order, is part of the comparison above: the wrapped trees are
+    # compared element by element of that sequence, wherever the loop itself is written)
+    same(ctx, "R2", "_get_constrained_path returns [None] followed by one particle per data point of self.data_points, in order", f, exq.result, spp.result, "returned path")
+    if True:
         # exactly one edit per data point: in every scenario each data point of the pass is added to the tree being
         # rebuilt exactly once (whether the three edits are written as if / elif / else arms or live in a helper)
         from ..termflow import Valuation
